@@ -260,12 +260,7 @@ Proof.
   match goal with H : negb (text_eqb (mnem i) END_t) = true |- _ => apply negb_true_iff in H; rewrite H end.
   cbn [andb negb orb]. change (firstn (S (S e')) (d :: rest)) with (d :: firstn (S e') rest).
   unfold create_value, value_of_text. rewrite Hs. rewrite Ht. rewrite N.eqb_refl. cbn [bind].
-  destruct (Tables.is_pseudo_define i); [|eauto].
-  assert (Hn0 : forall m, exists n, num_of_int false 0 None m = Ok n).
-  { intros m. unfold num_of_int. cbn [negb andb N.ltb N.compare]. destruct (post_init _ _ _). eauto. }
-  destruct (_ && _).
-  - cbn [v_int]. destruct (Hn0 MExtended) as [n ->]. cbn [bind]. eauto.
-  - destruct (Nat.eqb _ 2); [|eauto]. cbn [v_int]. destruct (Hn0 MDirect) as [n ->]. cbn [bind]. eauto.
+  cbn [v_is_numeric]. rewrite andb_false_r. eauto.
 Qed.
 
 Theorem parse_line_never_crashes line : benign (parse_line line).
